@@ -8,6 +8,7 @@ pub mod corpus;
 pub mod refspec;
 pub mod ctx;
 pub mod hang;
+pub mod ioadapt;
 pub mod rng;
 pub mod realconn;
 pub mod sess;
